@@ -353,14 +353,77 @@ pub async fn dump(app: &Arc<AppShareData>) -> Value {
         };
         seqs.insert(key.as_ref().clone(), v);
     }
+    let snapshot_records = snapshot_records(app).await;
     let mut out = json!({
         "configs": configs, "histories": histories, "listings": listings, "namespaces": namespaces, "users": users,
         "mcp_servers": servers, "mcp_server_details": server_details, "mcp_tools": tools, "mcp_tool_details": tool_details,
-        "instances": instances, "membership": membership, "sequences": seqs,
+        "instances": instances, "membership": membership, "sequences": seqs, "snapshot_records": snapshot_records,
     });
     // internal bookkeeping that no API serves (its effects are caught by the reference-run comparison)
     strip_keys(&mut out, &["ref_count", "refCount"]);
     out
+}
+
+/// Second observation (never replaces the query dump): the records the real `RaftDataHandler::build_snapshot` writes
+/// into a real `SnapshotWriterActor`, read back with the real `SnapshotReader`. Compared for the trees whose content is a
+/// pure function of the applied log: the sequence table (named sequences and the config history-id high-water mark),
+/// the config table (value, md5, type, description, history) and the user table. Namespaces (derived weak flags),
+/// naming instances (load-time stamps), MCP (reference counts) and cache entries (deadlines) are left to the queries.
+pub async fn snapshot_records(app: &Arc<AppShareData>) -> Value {
+    use rnacos::raft::filestore::model::SnapshotHeaderDto;
+    use rnacos::raft::filestore::raftdata::RaftDataHandler;
+    use rnacos::raft::filestore::raftsnapshot::{SnapshotReader, SnapshotWriterActor, SnapshotWriterRequest};
+    let handler: Arc<RaftDataHandler> = match app.factory_data.get_bean::<RaftDataHandler>() {
+        Some(h) => h,
+        None => return json!({"error": "no RaftDataHandler bean"}),
+    };
+    static SEQ: std::sync::atomic::AtomicU64 = std::sync::atomic::AtomicU64::new(0);
+    let n = SEQ.fetch_add(1, std::sync::atomic::Ordering::SeqCst);
+    let path = std::env::temp_dir().join(format!("rnv-snapdump-{}-{}", std::process::id(), n));
+    let path_str = path.to_string_lossy().into_owned();
+    let header = SnapshotHeaderDto { last_index: 1, last_term: 1, member: vec![1], member_after_consensus: vec![], node_addrs: Default::default() };
+    let writer = SnapshotWriterActor::new(Arc::new(path_str.clone()), header).start();
+    if let Err(e) = handler.build_snapshot(writer.clone()).await {
+        std::fs::remove_file(&path).ok();
+        return json!({"error": format!("build_snapshot: {}", e)});
+    }
+    for _ in 0..2 {
+        match writer.send(SnapshotWriterRequest::Flush).await {
+            Ok(Ok(_)) => {}
+            other => {
+                std::fs::remove_file(&path).ok();
+                return json!({"error": format!("flush: {:?}", other.map(|r| r.map(|_| ())))});
+            }
+        }
+    }
+    let mut trees: std::collections::BTreeMap<String, Vec<(String, String, usize)>> = Default::default();
+    match SnapshotReader::init(&path_str).await {
+        Ok(mut reader) => loop {
+            match reader.read_record().await {
+                Ok(Some(rec)) => {
+                    trees.entry(rec.tree.as_ref().clone()).or_default().push((String::from_utf8_lossy(&rec.key).replace('\u{2}', "|"), format!("{:x}", md5::compute(&rec.value)), rec.value.len()));
+                }
+                Ok(None) => break,
+                Err(e) => {
+                    std::fs::remove_file(&path).ok();
+                    return json!({"error": format!("read_record: {}", e)});
+                }
+            }
+        },
+        Err(e) => {
+            std::fs::remove_file(&path).ok();
+            return json!({"error": format!("open: {}", e)});
+        }
+    }
+    std::fs::remove_file(&path).ok();
+    let mut out = serde_json::Map::new();
+    for name in [rnacos::common::constant::SEQUENCE_TREE_NAME.as_str(), rnacos::common::constant::CONFIG_TREE_NAME.as_str(), rnacos::common::constant::USER_TREE_NAME.as_str()] {
+        let mut rows = trees.remove(name).unwrap_or_default();
+        rows.sort();
+        out.insert(name.to_string(), Value::Array(rows.into_iter().map(|(k, m, l)| json!({"key": k, "value_md5": m, "len": l})).collect()));
+    }
+    out.insert("other_trees_record_counts".into(), Value::Null);
+    Value::Object(out)
 }
 
 fn strip_keys(v: &mut Value, names: &[&str]) {
